@@ -7,11 +7,13 @@ import (
 	"os"
 	"time"
 
+	"verif/harness/chkenum"
 	"verif/harness/clienth"
 	"verif/harness/conc"
 	"verif/harness/flushenum"
 	"verif/harness/getenum"
 	"verif/harness/malformed"
+	"verif/harness/reconc"
 	"verif/harness/ribhist"
 	"verif/harness/sesshist"
 	"verif/harness/streams"
@@ -39,6 +41,8 @@ var runners = map[string]runner{
 	"C11": {"model_checking", conc.RunC11},
 	"C09": {"model_checking", streams.RunC09},
 	"C13": {"model_checking", clienth.RunC13},
+	"C15": {"model_checking", reconc.Run},
+	"C17": {"model_checking", chkenum.Run},
 	"C14": {"fault_enumeration", clienth.RunC14},
 	"C10": {"fault_enumeration", streams.RunC10},
 	"C06": {"model_checking", func(rep *report.Report, tier string) {
